@@ -5,6 +5,7 @@ cd "$(dirname "$0")"
 export GOFLAGS=-mod=mod GOPROXY=off GOSUMDB=off GOTOOLCHAIN=local
 mkdir -p .work/bin evidence replays
 (cd extract && go build -o ../.work/bin/extract .)
+python3 tools/gen_roots.py
 # regenerate every Extracted/*.lean from the current tree, then build all Lean modules and the driver
 rm -f lean/GoZero/Extracted/*.lean
 ./.work/bin/extract -repo "${VERIF_REPO:-/repo}" -out "$(pwd)/lean/GoZero/Extracted"
